@@ -178,8 +178,10 @@ func timeNanos(v Val) (*Term, bool) {
 	return nil, false
 }
 
-// nanoseconds between the zero Time (year 1) and the Unix epoch
-var unixEpochNanos = new(big.Int).Mul(big.NewInt(62135596800), big.NewInt(1000000000))
+// The count is taken from the Unix epoch, so that every time the server can observe fits the 64-bit field it is kept
+// in (an offset from year 1 would not); the zero Time and the epoch itself therefore coincide in the model, and the
+// clock is assumed to be past the epoch.
+var unixEpochNanos = big.NewInt(0)
 
 func bytesEqualModel(vc *VC, st *State, a, b *SliceV) *Term {
 	_, h := vc.byteContent(st)
@@ -214,7 +216,7 @@ func (vc *VC) tick(st *State) *Term {
 	ki := vc.reg.get("ghost:clock", 0, IntSort, nil)
 	prev := st.heapVar(ki)
 	now := Fresh("now", IntSort)
-	vc.assume(st, And(Ge(now, prev), Ge(prev, IntBig(unixEpochNanos))))
+	vc.assume(st, And(Ge(now, prev), Gt(now, IntC(0)), Ge(prev, IntC(0))))
 	st.heap[ki.Name] = now
 	return now
 }
